@@ -1,5 +1,5 @@
 SPECIFICATION SpecF
-CONSTANTS NSync=4 MaxClock=2 RetentionEnabled=TRUE Fine=FALSE Variant="asis"
+CONSTANTS NSync=4 MaxClock=2 RetentionEnabled=TRUE Fine=FALSE Variant="asis" Fixes={}
 INVARIANTS NeverAhead NoSkip SidecarAfterApply Converges NoStallH ResumeAcceptedH ResumeAfterKillH
 PROPERTY SidecarMonotone
 CHECK_DEADLOCK FALSE
